@@ -110,36 +110,37 @@ structure GrowSpec (T : Tun) (target : Nat) (s s' : Sketch ρ) : Prop where
             (extra ≠ [] → s'.compactors.length = target)
 
 theorem growTo_spec {T : Tun} (hT : TunOK T) (F : SecFns ρ) (target : Nat) :
-    ∀ (fuel : Nat) (s : Sketch ρ), target ≤ s.compactors.length + fuel → CsInv T s.hra 0 s.compactors → 2 ≤ s.k →
-      GrowSpec T target s (growTo T F fuel target s) := by
+    ∀ (fuel : Nat) (s : Sketch ρ) (acc : Acc), target ≤ s.compactors.length + fuel → CsInv T s.hra 0 s.compactors → 2 ≤ s.k →
+      GrowSpec T target s (growTo T F fuel target s acc).1 ∧ (growTo T F fuel target s acc).2.throws = acc.throws := by
   intro fuel
   induction fuel with
   | zero =>
-    intro s hf hinv _
+    intro s acc hf hinv _
     simp only [growTo]
-    exact ⟨rfl, rfl, rfl, rfl, rfl, hinv, by omega, [], by simp, by simp, fun x => absurd rfl x⟩
+    exact ⟨⟨rfl, rfl, rfl, rfl, rfl, hinv, by show target ≤ s.compactors.length; omega, [], by simp, by simp, fun x => absurd rfl x⟩, by first | rfl | trivial⟩
   | succ fuel ih =>
-    intro s hf hinv hk
+    intro s acc hf hinv hk
     simp only [growTo]
     split
     · rename_i hlt
-      have hg : CsInv T (s.grow T F).hra 0 (s.grow T F).compactors := by
-        show CsInv T s.hra 0 (s.compactors ++ [Compactor.mk' T F s.hra s.compactors.length s.k])
-        rw [CsInv_append]; exact ⟨hinv, by simpa using mk'_CInv hT F s.hra s.compactors.length s.k hk⟩
-      have IH := ih (s.grow T F) (by simp [Sketch.grow]; omega) hg hk
-      obtain ⟨extra, he1, he2, he3⟩ := IH.shape
-      refine ⟨IH.k, IH.hra, IH.n, IH.mn, IH.mx, IH.inv, IH.ge, ?_⟩
-      refine ⟨Compactor.mk' T F s.hra s.compactors.length s.k :: extra, ?_, ?_, ?_⟩
+      have hg : CsInv T (s.grow T F acc.peek).hra 0 (s.grow T F acc.peek).compactors := by
+        show CsInv T s.hra 0 (s.compactors ++ [Compactor.mkC T F s.hra s.compactors.length s.k acc.peek])
+        rw [CsInv_append]; exact ⟨hinv, by simpa using mkC_CInv hT F s.hra s.compactors.length s.k hk acc.peek⟩
+      have IH := ih (s.grow T F acc.peek) (acc.drawIf T.initCoinRandom s.compactors.length) (by simp [Sketch.grow]; omega) hg hk
+      obtain ⟨extra, he1, he2, he3⟩ := IH.1.shape
+      refine ⟨⟨IH.1.k, IH.1.hra, IH.1.n, IH.1.mn, IH.1.mx, IH.1.inv, IH.1.ge, ?_⟩, by rw [IH.2, drawIf_throws]⟩
+      refine ⟨Compactor.mkC T F s.hra s.compactors.length s.k acc.peek :: extra, ?_, ?_, ?_⟩
       · rw [he1]; simp [Sketch.grow]
       · intro c hc; rcases List.mem_cons.1 hc with rfl | hc
-        · rfl
+        · exact (mkC_fields T F _ _ _ _).1
         · exact he2 c hc
       · intro _
         by_cases hex : extra = []
         · rw [he1, hex]; simp [Sketch.grow]
-          have := IH.ge; rw [he1, hex] at this; simp [Sketch.grow] at this; omega
+          have := IH.1.ge; rw [he1, hex] at this; simp [Sketch.grow] at this; omega
         · exact he3 hex
-    · exact ⟨rfl, rfl, rfl, rfl, rfl, hinv, by omega, [], by simp, by simp, fun x => absurd rfl x⟩
+    · rename_i hge
+      exact ⟨⟨rfl, rfl, rfl, rfl, rfl, hinv, by show target ≤ s.compactors.length; omega, [], by simp, by simp, fun x => absurd rfl x⟩, by first | rfl | trivial⟩
 
 /-! ### sketch merge -/
 
@@ -163,13 +164,16 @@ theorem sumItems_eq_zero_of_items_nil (cs : List (Compactor ρ)) (h : ∀ c ∈ 
 
 theorem totalW_append (a b : List (Compactor ρ)) : totalW (a ++ b) = totalW a + totalW b := weightP_append _ a b
 
-theorem mergePre_SInv {T : Tun} (hT : TunOK T) (F : SecFns ρ) (s o : Sketch ρ) (hs : SInv T s) (ho : SInv T o)
+theorem mergePre_SInv {T : Tun} (hT : TunOK T) (F : SecFns ρ) (s o : Sketch ρ) (acc : Acc) (hs : SInv T s) (ho : SInv T o)
     (hhra' : s.hra = o.hra) (hn0 : ¬ o.n = 0) :
-    SInv T (s.mergePre T F o) ∧ entered0 (s.mergePre T F o) = entered0 o ++ entered0 s ∧
-    (s.mergePre T F o).hra = s.hra ∧ (s.mergePre T F o).k = s.k ∧ (s.mergePre T F o).n = s.n + o.n := by
+    SInv T (s.mergePre T F o acc).1 ∧ entered0 (s.mergePre T F o acc).1 = entered0 o ++ entered0 s ∧
+    (s.mergePre T F o acc).1.hra = s.hra ∧ (s.mergePre T F o acc).1.k = s.k ∧ (s.mergePre T F o acc).1.n = s.n + o.n ∧
+    (s.mergePre T F o acc).2.throws = acc.throws := by
   simp only [Sketch.mergePre]
-  have g := growTo_spec hT F o.compactors.length o.compactors.length s (by omega) hs.cs hs.k2
-  generalize growTo T F o.compactors.length o.compactors.length s = s1 at g ⊢
+  have g0 := growTo_spec hT F o.compactors.length o.compactors.length s acc (by omega) hs.cs hs.k2
+  have g := g0.1
+  have gthr := g0.2
+  generalize (growTo T F o.compactors.length o.compactors.length s acc).1 = s1 at g ⊢
   obtain ⟨extra, he1, he2, he3⟩ := g.shape
   have hocs : CsInv T s.hra 0 o.compactors := by rw [hhra']; exact ho.cs
   have ml := mergeLevels_spec hT F 0 s1.compactors o.compactors g.inv hocs g.ge
@@ -256,7 +260,7 @@ theorem mergePre_SInv {T : Tun} (hT : TunOK T) (F : SecFns ρ) (s o : Sketch ρ)
       have sp := cmerge_spec hT F hinv0.1 hinvo.1
       rw [hcs'] at sp
       rw [sp.cnt p, sp.ent, cntP_append, hs.ex c0 hc0 p, ho.ex o0 ho0 p]; omega
-  exact ⟨hI2, hent, g.hra, g.k, trivial⟩
+  exact ⟨hI2, hent, g.hra, g.k, trivial, gthr⟩
 
 theorem merge_SInv {T : Tun} (hT : TunOK T) (F : SecFns ρ) (s o : Sketch ρ) (acc : Acc) (hs : SInv T s) (ho : SInv T o)
     (r : Sketch ρ × Acc) (hr : s.merge T F o acc = some r) :
@@ -275,15 +279,15 @@ theorem merge_SInv {T : Tun} (hT : TunOK T) (F : SecFns ρ) (s o : Sketch ρ) (a
       exact List.length_eq_zero_iff.1 this.symm
     exact ⟨hs, rfl, by simp [this], rfl, rfl, hhra'⟩
   rename_i hn0
-  obtain ⟨hI2, hent2, hh2, hk2, hn2⟩ := mergePre_SInv hT F s o hs ho hhra' hn0
+  obtain ⟨hI2, hent2, hh2, hk2, hn2, hthr2⟩ := mergePre_SInv hT F s o acc hs ho hhra' hn0
   split at hr
-  · have := compress_SInv hT F (s.mergePre T F o) acc hI2 (by rw [hn2]; omega)
+  · have := compress_SInv hT F (s.mergePre T F o acc).1 (s.mergePre T F o acc).2 hI2 (by rw [hn2]; omega)
     obtain ⟨a, b, c', d, e, f, g', i⟩ := this
-    have : r = (s.mergePre T F o).compress T F acc := by simpa using hr.symm
+    have : r = (s.mergePre T F o acc).1.compress T F (s.mergePre T F o acc).2 := by simpa using hr.symm
     subst this
-    exact ⟨a, b, by rw [c', hent2], by rw [g', hh2], by rw [i, hk2], hhra'⟩
-  · have : r = (s.mergePre T F o, acc) := by simpa using hr.symm
+    exact ⟨a, by rw [b, hthr2], by rw [c', hent2], by rw [g', hh2], by rw [i, hk2], hhra'⟩
+  · have : r = s.mergePre T F o acc := by simpa using hr.symm
     subst this
-    exact ⟨hI2, rfl, hent2, hh2, hk2, hhra'⟩
+    exact ⟨hI2, hthr2, hent2, hh2, hk2, hhra'⟩
 
 end DS.Req
